@@ -33,6 +33,8 @@ def strategy(tier):
         "order": st.one_of(st.none(), st.lists(st.integers(0, 11), min_size=1, max_size=8)),
         # the output directory was used before: it already holds (newer, different) files under the names this run writes
         "prefill": st.sampled_from([False, False, True]),
+        # a symbolic link 'zz_alias' to the first subdirectory, with input.follow_symlinks off (default) or on
+        "alias": st.sampled_from([None, None, None, "nofollow", "follow"]),
     })
 
 
@@ -87,6 +89,15 @@ def evaluate(case):
     with S.Sandbox("c13") as sb:
         inp = sb.path("in")
         S.materialize(tree, inp)
+        alias = case.get("alias") if [d for d in tree["dirs"] if not d.startswith("_out")] else None
+        if alias:
+            import copy
+            target = sorted(d for d in tree["dirs"] if not d.startswith("_out"))[0]
+            os.symlink(target, os.path.join(inp, "zz_alias"))
+            res.labels.append("symlinked-directory:" + alias)
+            if alias == "follow":
+                # followed links are ordinary directories with the target's content; links not followed are not processed
+                tree = {"files": tree["files"], "dirs": dict(tree["dirs"], zz_alias=copy.deepcopy(tree["dirs"][target]))}
         cwd = sb.path("cwd")
         if case["outloc"] == "abs":
             out_arg, out_abs = sb.path("out"), sb.path("out")
@@ -97,6 +108,8 @@ def evaluate(case):
         cfg = sb.path("settings.yaml")
         with open(cfg, "w") as f:
             f.write("input:\n  auto_exclude_directories_without_cmake: %s\n" % ("true" if case["auto"] else "false"))
+            if alias:
+                f.write("  follow_symlinks: %s\n" % ("true" if alias == "follow" else "false"))
         argv = [inp, "-o", out_arg, "-s", cfg]
         if case["recursive"]:
             argv.append("-r")
